@@ -356,8 +356,9 @@ func c14StoredHash(c *Check) {
 			}
 			msg = ""
 			// both indexes: parts[0] selects, parts[1] is verified (possibly through single-definition locals)
-			selIx, ok1 := ast.Unparen(resolveLocal(info, body, sel.Index)).(*ast.IndexExpr)
-			argIx, ok2 := ast.Unparen(resolveLocal(info, body, call.Args[1])).(*ast.IndexExpr)
+			at, _ := r.F.PtOfNode(ret)
+			selIx, ok1 := ast.Unparen(r.resolveLocalAt(sel.Index, at)).(*ast.IndexExpr)
+			argIx, ok2 := ast.Unparen(r.resolveLocalAt(call.Args[1], at)).(*ast.IndexExpr)
 			if !ok1 || !ok2 || objOf(info, selIx.X) == nil || objOf(info, selIx.X) != objOf(info, argIx.X) {
 				msg = "the verifier is not selected by, and applied to, the two parts of one and the same value"
 				return false
